@@ -15,6 +15,7 @@ import (
 	"time"
 
 	"github.com/shogo82148/goat/jwa"
+	"github.com/shogo82148/goat/jwk"
 	"github.com/shogo82148/goat/jws"
 	"github.com/shogo82148/goat/jwt"
 	"github.com/shogo82148/goat/sig"
@@ -39,6 +40,11 @@ type c01Finder struct {
 
 func (f c01Finder) resolve(hdrAlg, kid string) (alg string, weak bool, ref c01KeyRef, ok bool) {
 	switch f.Mode {
+	case "jwk": // goat's own jws.JWKKeyFinder / jwt.JWKKeyFiner on one key: the header's algorithm
+		if _, avail := c01GoatAlg(hdrAlg, false); !avail {
+			return "", false, ref, false
+		}
+		return hdrAlg, false, f.Key, true
 	case "fixed":
 		alg = f.Alg
 		if alg == "" {
@@ -234,10 +240,14 @@ func c01RunGoatWith(cs c01Case, fixed sig.SigningKey) (out c01Out) {
 		case "jwt":
 			p := &jwt.Parser{}
 			if cs.Configured {
+				var kf jwt.KeyFinder = jwt.FindKeyFunc(func(ctx context.Context, h *jws.Header) (sig.SigningKey, error) {
+					return finderJWS(ctx, h, nil)
+				})
+				if jk, isJWK := c01GoatKey(cs.Finder.Key).(*jwk.Key); cs.Finder.Mode == "jwk" && isJWK {
+					kf = &jwt.JWKKeyFiner{Key: jk} // goat's own finder
+				}
 				p = &jwt.Parser{
-					KeyFinder: jwt.FindKeyFunc(func(ctx context.Context, h *jws.Header) (sig.SigningKey, error) {
-						return finderJWS(ctx, h, nil)
-					}),
+					KeyFinder: kf,
 					AlgorithmVerifier:     c01AlgVerifier{cs.AllowAny, cs.Allowed},
 					IssuerSubjectVerifier: jwt.UnsecureAnyIssuerSubject,
 					AudienceVerifier:      jwt.UnsecureAnyAudience,
@@ -287,7 +297,11 @@ func c01RunGoatWith(cs c01Case, fixed sig.SigningKey) (out c01Out) {
 			}
 			v := &jws.Verifier{}
 			if cs.Configured {
-				v = &jws.Verifier{AlgorithmVerifier: c01AlgVerifier{cs.AllowAny, cs.Allowed}, KeyFinder: finderJWS}
+				var kf jws.KeyFinder = finderJWS
+				if jk, isJWK := c01GoatKey(cs.Finder.Key).(*jwk.Key); cs.Finder.Mode == "jwk" && isJWK {
+					kf = &jws.JWKKeyFinder{JWK: jk} // goat's own finder
+				}
+				v = &jws.Verifier{AlgorithmVerifier: c01AlgVerifier{cs.AllowAny, cs.Allowed}, KeyFinder: kf}
 			}
 			var p, u *jws.Header
 			var payload []byte
